@@ -4,7 +4,8 @@
 //! every byte offset when the operation consumes <= 256 bytes) the operation is re-run on a tape identical before the
 //! fork point and independent after it.  Demanded: a fork at or beyond the last byte consumed changes nothing; a fork
 //! at 0 (independent tape) changes EVERY random field.  Which draws feed which field is recorded as evidence only.
-//! (iii) all random values are pairwise distinct within a run and across runs on independent tapes.
+//! (iii) all random values are pairwise distinct within a run and across runs on independent tapes.  (iv) fault
+//! injection on the generator: with the k-th draw failing, the failure surfaces or the random fields stay fresh.
 use super::common::*;
 use crate::adapter::Blob;
 use crate::api::Api;
@@ -185,6 +186,44 @@ fn explore(api: &Api, setting_ix: usize, tier: Tier, seed: u64, cx: &mut Cx) {
                             feeds.push((n, changed));
                         }
                     }
+                }
+            }
+            // (iv) failing generator: the k-th draw fails (try_fill_bytes -> Err, fill_bytes -> the generator's own
+            // panic).  Either the failure surfaces (Err / the generator's panic), or - if the operation still returns a
+            // result - every random field must still differ between two independent failing tapes: a value that was
+            // silently replaced by a constant when the generator failed is not fresh.
+            let offs: Vec<usize> = {
+                let mut v: Vec<usize> = draws.iter().map(|(o, _)| *o).collect();
+                if v.len() > 6 && !tier.thorough() {
+                    let n = v.len();
+                    v = vec![v[0], v[1], v[n / 2], v[n - 2], v[n - 1]];
+                }
+                v
+            };
+            for off in offs {
+                cx.begin_case(json!({"op": op, "setting": setting_ix, "tape": ti, "generator_fails_at_byte": off}));
+                if !cx.state(&(op, ti, "fail", off)) {
+                    continue;
+                }
+                cx.edges += 2;
+                cx.path();
+                let mut ta = Tape::new(&label);
+                ta.fail_at = Some(off);
+                let mut tb = Tape::forked(&label, &format!("{}/alt", label), 0);
+                tb.fail_at = Some(off);
+                match (run_op(api, &fx, op, &mut ta), run_op(api, &fx, op, &mut tb)) {
+                    (Ok(a), Ok(b)) => {
+                        let same: Vec<&String> = a.0.iter().zip(&b.0).filter(|(x, y)| x.1 == y.1).map(|(x, _)| &x.0).collect();
+                        if same.is_empty() {
+                            cx.outcome("rng-failure-tolerated-values-still-fresh");
+                        } else {
+                            cx.outcome("RNG-FAILURE-GIVES-CONSTANT");
+                            for f in same {
+                                cx.violate(&format!("{}/constant-after-rng-failure/{}", op, f), format!("when the random generator fails, the operation still succeeds and random field {} is the same on independent tapes", f));
+                            }
+                        }
+                    }
+                    _ => cx.outcome("rng-failure-surfaces"),
                 }
             }
             if ti == 0 {
